@@ -75,6 +75,11 @@ func StartPoolArgs(poolArgs ...string) (*PoolProc, error) {
 // stopped; XDG_DATA_HOME unset, so that the binary's default data directory lies under it). With
 // home == "" a throw-away HOME is used.
 func StartPoolHome(home string, poolArgs ...string) (*PoolProc, error) {
+	return StartPoolEnv(home, nil, poolArgs...)
+}
+
+// StartPoolEnv is StartPoolHome with extra environment variables for the pool process.
+func StartPoolEnv(home string, env []string, poolArgs ...string) (*PoolProc, error) {
 	bin := VipnodeBin()
 	if bin == "" {
 		return nil, fmt.Errorf("VERIF_VIPNODE_BIN not set")
@@ -96,6 +101,7 @@ func StartPoolHome(home string, poolArgs ...string) (*PoolProc, error) {
 			}
 			p.cmd.Env = append(p.cmd.Env, "HOME="+home)
 		}
+		p.cmd.Env = append(p.cmd.Env, env...)
 		if err := p.cmd.Start(); err != nil {
 			return nil, err
 		}
